@@ -6,6 +6,9 @@
 //! In a third of the cases (and in the two fixed cases with index 0 and 1) the bare remote has
 //! an executable hooks/update that refuses refs/heads/deny*, so pushes mix accepted refs,
 //! lease-stale refs ("stale info") and refs the remote rejects ("remote rejected").
+//! In about a quarter of the cases (and fixed case 2) one push_refs call carries bookmarks AND
+//! tags (refs/tags/t<k>, remote-tag records name@origin, refs/jj/remote-tags/origin/ in the
+//! backing repo), exactly one of them lease-stale; ref keys >= 100 are tags.
 //! `jj git fetch` needs git >= 2.41 (installed: 2.39), so fetch = plain `git fetch --prune
 //! origin` inside the backing repository followed by jj_lib::git::import_refs, which is the
 //! same state change to the view. All states are observed around every fetch and push.
@@ -71,8 +74,21 @@ thread_local! {
 fn is_denied(n: u64) -> bool {
     DENIED.with(|d| d.borrow().contains(&n))
 }
+fn is_tag(n: u64) -> bool {
+    n >= 100
+}
 fn bname(n: u64) -> String {
-    if is_denied(n) { format!("deny{n}") } else { format!("b{n}") }
+    if is_tag(n) {
+        format!("t{}", n - 100)
+    } else if is_denied(n) {
+        format!("deny{n}")
+    } else {
+        format!("b{n}")
+    }
+}
+fn tag_num(s: &str) -> Option<u64> {
+    let n: u64 = s.strip_prefix('t')?.parse().ok()?;
+    Some(100 + n)
 }
 fn name_num(s: &str) -> Option<u64> {
     if let Some(r) = s.strip_prefix("deny") {
@@ -148,6 +164,7 @@ impl World {
         gix::ObjectId::from_bytes_or_panic(self.ids[k as usize].as_ref().unwrap().as_bytes())
     }
     fn git_refs_under(&mut self, dir: &Path, prefix: &str) -> Vec<(u64, u64)> {
+        let tags = prefix.contains("tags/");
         let repo = testutils::git::open(dir);
         let mut found = vec![];
         {
@@ -165,7 +182,8 @@ impl World {
             if short == "HEAD" {
                 continue;
             }
-            match (name_num(short), id) {
+            let key = if tags { tag_num(short) } else { name_num(short) };
+            match (key, id) {
                 (Some(k), Some(oid)) => {
                     let c = self.number(&CommitId::from_bytes(oid.as_bytes()));
                     out.push((k, c));
@@ -206,8 +224,30 @@ impl World {
                 None => self.bad(format!("stray remote bookmark {n}")),
             }
         }
-        if view.local_tags().next().is_some() || view.all_remote_tags().next().is_some() {
-            self.bad("stray tag");
+        // tags: keys 100 + k
+        let ltags: Vec<(String, RefTarget)> =
+            view.local_tags().map(|(n, t)| (n.as_str().to_string(), t.clone())).collect();
+        for (n, t) in ltags {
+            match tag_num(&n) {
+                Some(k) => {
+                    let v = self.target_vec(&t);
+                    s.local.push((k, v));
+                }
+                None => self.bad(format!("stray local tag {n}")),
+            }
+        }
+        let rtags: Vec<(String, String, RemoteRef)> = view
+            .all_remote_tags()
+            .map(|(sym, r)| (sym.name.as_str().to_string(), sym.remote.as_str().to_string(), r.clone()))
+            .collect();
+        for (n, remote, r) in rtags {
+            match (remote == "origin", tag_num(&n)) {
+                (true, Some(k)) => {
+                    let v = self.target_vec(&r.target);
+                    s.remote_bm.push((k, v, r.state == RemoteRefState::Tracked));
+                }
+                _ => self.bad(format!("stray remote tag {n}@{remote}")),
+            }
         }
         let grefs: Vec<(String, RefTarget)> =
             view.git_refs().iter().map(|(n, t)| (n.as_str().to_string(), t.clone())).collect();
@@ -223,10 +263,17 @@ impl World {
         let backing_dir = self.backing_dir.clone();
         let source_dir = self.source_dir.clone();
         s.backing = self.git_refs_under(&backing_dir, "refs/remotes/origin/");
+        let bt = self.git_refs_under(&backing_dir, "refs/jj/remote-tags/origin/");
+        s.backing.extend(bt);
+        if !self.git_refs_under(&backing_dir, "refs/tags/").is_empty() {
+            self.bad("backing repo has local tags");
+        }
         if !self.git_refs_under(&backing_dir, "refs/heads/").is_empty() {
             self.bad("backing repo has local branches");
         }
         s.remote = self.git_refs_under(&source_dir, "refs/heads/");
+        let rt = self.git_refs_under(&source_dir, "refs/tags/");
+        s.remote.extend(rt);
         s.local.sort();
         s.remote_bm.sort();
         s.grefs.sort();
@@ -266,7 +313,7 @@ fn main() {
         unsafe { std::env::set_var("TMPDIR", &ctx.scratch) };
         for i in ctx.indices() {
             let mut rng = ctx.rng(i);
-            let fixed = if i < 2 { Some(i as u8) } else { None };
+            let fixed = if i < 3 { Some(i as u8) } else { None };
             let res = std::panic::catch_unwind(std::panic::AssertUnwindSafe(|| one_case(&mut rng, fixed)));
             let (term, nontrivial, shape, feats, notes) = match res {
                 Ok(r) => r,
@@ -312,7 +359,10 @@ fn one_case(rng: &mut Rng, fixed: Option<u8>) -> (String, bool, String, Vec<&'st
     let mut auto_track = rng.chance(2, 3);
     let mut real_other = rng.chance(1, 4);
     // a third of the cases: the remote has an update hook that refuses refs/heads/deny*
-    let hook_mode = fixed.is_some() || rng.chance(1, 3);
+    let hook_mode = matches!(fixed, Some(0) | Some(1)) || (fixed.is_none() && rng.chance(1, 3));
+    // a quarter of the other cases (and fixed case 2): bookmarks AND tags in the same pushes
+    let tag_mode = fixed == Some(2) || (fixed.is_none() && !hook_mode && rng.chance(2, 5));
+    let mut n_tags = if tag_mode { rng.range(1, 2) } else { 0 };
     let mut denied: Vec<u64> = vec![];
     if hook_mode {
         n_names = n_names.max(2);
@@ -326,15 +376,25 @@ fn one_case(rng: &mut Rng, fixed: Option<u8>) -> (String, bool, String, Vec<&'st
             (n_names, n_ext, n_jj, auto_track, real_other) = (3, 2, 3, true, false);
             denied = vec![3];
         }
-        Some(_) => {
+        Some(1) => {
             (n_names, n_ext, n_jj, auto_track, real_other) = (2, 1, 2, false, false);
             denied = vec![2];
         }
+        Some(_) => {
+            (n_names, n_ext, n_jj, auto_track, real_other) = (2, 2, 3, true, false);
+            n_tags = 2;
+        }
         None => {}
+    }
+    if tag_mode {
+        real_other = false;
     }
     denied.sort();
     DENIED.with(|d| *d.borrow_mut() = denied.clone());
-    let names: Vec<u64> = (1..=n_names).collect();
+    let mut names: Vec<u64> = (1..=n_names).collect();
+    let bm_names: Vec<u64> = names.clone();
+    let tag_names: Vec<u64> = (1..=n_tags).map(|k| 100 + k).collect();
+    names.extend(tag_names.iter().copied());
     if !denied.is_empty() {
         use std::os::unix::fs::PermissionsExt as _;
         let hooks = source_dir.join("hooks");
@@ -477,7 +537,51 @@ fn one_case(rng: &mut Rng, fixed: Option<u8>) -> (String, bool, String, Vec<&'st
     let mut plan: Vec<Item> = vec![];
     let mut script: &'static str = "script:none";
     let ok_names: Vec<u64> = names.iter().copied().filter(|n| !denied.contains(n)).collect();
-    if !denied.is_empty() && (fixed.is_some() || rng.chance(4, 5)) {
+    let use_tag_script = tag_mode;
+    if use_tag_script {
+        // tag pool: one push_refs call with bookmarks and tags, exactly one of them stale
+        let a = jj_commits[0];
+        let b2 = jj_commits[1];
+        let e = ext_commits[0];
+        let ext = |n: u64, c: u64| -> Item { (0, Some(n), Some(c)) };
+        let jj = |n: u64, c: u64| -> Item { (1, Some(n), Some(c)) };
+        let push1 = |n: u64| -> Item { (4, Some(n), None) };
+        let push_all: Item = (5, None, None);
+        let bm = bm_names[0];
+        let tg = tag_names[0];
+        let stale_bookmark = |bm: u64, tg: u64| -> Vec<Item> {
+            vec![jj(bm, a), push1(bm), ext(bm, e), jj(bm, b2), jj(tg, a), push_all.clone(), jj(tg, b2), push_all.clone()]
+        };
+        let stale_tag = |bm: u64, tg: u64| -> Vec<Item> {
+            vec![jj(tg, a), push1(tg), ext(tg, e), jj(tg, b2), jj(bm, a), push_all.clone(), jj(bm, b2), push_all.clone()]
+        };
+        let k = if fixed.is_some() { 9 } else { rng.below(4) };
+        let items: Vec<Item> = match k {
+            9 => {
+                script = "script:tags-fixed-stale-bookmark-then-stale-tag";
+                let mut v = stale_bookmark(bm_names[0], tag_names[0]);
+                v.extend(stale_tag(bm_names[1], tag_names[1]));
+                v
+            }
+            0 => {
+                script = "script:tags-stale-bookmark-accepted-tag";
+                stale_bookmark(bm, tg)
+            }
+            1 => {
+                script = "script:tags-stale-tag-accepted-bookmark";
+                stale_tag(bm, tg)
+            }
+            2 => {
+                script = "script:tags-both-accepted-then-tag-delete";
+                vec![jj(bm, a), jj(tg, a), push_all.clone(), jj(tg, 0), jj(bm, b2), push_all.clone()]
+            }
+            _ => {
+                script = "script:tags-ext-tag-delete-and-bookmark-move";
+                vec![jj(bm, a), jj(tg, a), push_all.clone(), ext(tg, 0), jj(tg, b2), jj(bm, b2), push_all.clone()]
+            }
+        };
+        plan.extend(items);
+    } else if !denied.is_empty() && (fixed.is_some() || rng.chance(4, 5)) {
         // hook pool: pushes that mix accepted, lease-stale and hook-denied refs
         let d = *denied.last().unwrap();
         let m = ok_names[0];
@@ -588,6 +692,7 @@ fn one_case(rng: &mut Rng, fixed: Option<u8>) -> (String, bool, String, Vec<&'st
         } else {
             4 // push
         };
+        let op = if tag_mode && (op == 3 || op == 2) { 1 } else { op };
         plan.push((op, None, None));
     }
     if fixed.is_none() {
@@ -605,7 +710,11 @@ fn one_case(rng: &mut Rng, fixed: Option<u8>) -> (String, bool, String, Vec<&'st
         match op {
             0 => {
                 let n = forced_name.unwrap_or_else(|| *rng.pick(&names));
-                let full = format!("refs/heads/{}", bname(n));
+                let full = if is_tag(n) {
+                    format!("refs/tags/{}", bname(n))
+                } else {
+                    format!("refs/heads/{}", bname(n))
+                };
                 let src = testutils::git::open(&source_dir);
                 // candidates: external commits, and jj commits that have reached the remote
                 let cands: Vec<u64> = all_commits
@@ -662,11 +771,15 @@ fn one_case(rng: &mut Rng, fixed: Option<u8>) -> (String, bool, String, Vec<&'st
                     vec![*rng.pick(&known)]
                 };
                 let target = w.to_target(&t);
-                tx.repo_mut().set_local_bookmark_target(RefName::new(&bname(n)), target);
+                if is_tag(n) {
+                    tx.repo_mut().set_local_tag_target(RefName::new(&bname(n)), target);
+                } else {
+                    tx.repo_mut().set_local_bookmark_target(RefName::new(&bname(n)), target);
+                }
                 steps.push(coq::app("JjSet", &[coq::n(n), tgt_term(&t)]));
             }
             2 => {
-                let n = forced_name.unwrap_or_else(|| *rng.pick(&names));
+                let n = forced_name.unwrap_or_else(|| *rng.pick(&bm_names));
                 let name = bname(n);
                 let sym = RemoteRefSymbol { name: RefName::new(&name), remote: origin };
                 let track = match forced_val {
@@ -683,7 +796,7 @@ fn one_case(rng: &mut Rng, fixed: Option<u8>) -> (String, bool, String, Vec<&'st
             3 => {
                 let view = tx.repo().view().clone();
                 let pre = w.snapshot(&view);
-                if !run_git(&backing_dir, &["fetch", "-q", "--prune", "origin"]) {
+                if !run_git(&backing_dir, &["fetch", "-q", "--no-tags", "--prune", "origin"]) {
                     w.bad("git fetch failed");
                 }
                 match jjv::catch(|| git::import_refs(tx.repo_mut(), &import_options).block_on()) {
@@ -719,16 +832,25 @@ fn one_case(rng: &mut Rng, fixed: Option<u8>) -> (String, bool, String, Vec<&'st
                 for n in &ns {
                     let name = bname(*n);
                     let sym = RemoteRefSymbol { name: RefName::new(&name), remote: origin };
-                    let local_target = view.get_local_bookmark(sym.name);
-                    let remote_ref = view.get_remote_bookmark(sym);
+                    let (local_target, remote_ref) = if is_tag(*n) {
+                        (view.get_local_tag(sym.name), view.get_remote_tag(sym))
+                    } else {
+                        (view.get_local_bookmark(sym.name), view.get_remote_bookmark(sym))
+                    };
                     let action = classify_ref_push_action(LocalAndRemoteRef { local_target, remote_ref });
                     if let RefPushAction::Update(Diff { before, after }) = action {
-                        targets.bookmarks.push((RefName::new(&name).to_owned(), Diff::new(before, after)));
+                        let item = (RefName::new(&name).to_owned(), Diff::new(before, after));
+                        if is_tag(*n) {
+                            targets.tags.push(item);
+                        } else {
+                            targets.bookmarks.push(item);
+                        }
                     }
                 }
                 let (mut pushed, mut rejected, mut unexported) = (vec![], vec![], 0u64);
                 let mut remote_rejected: Vec<u64> = vec![];
-                if !targets.bookmarks.is_empty() {
+                let mixed_kinds = !targets.bookmarks.is_empty() && !targets.tags.is_empty();
+                if !targets.bookmarks.is_empty() || !targets.tags.is_empty() {
                     n_push += 1;
                     let res = jjv::catch(|| {
                         git::push_refs(
@@ -742,7 +864,12 @@ fn one_case(rng: &mut Rng, fixed: Option<u8>) -> (String, bool, String, Vec<&'st
                     });
                     match res {
                         Some(Ok(stats)) => {
-                            let to_num = |s: &str| s.strip_prefix("refs/heads/").and_then(name_num).unwrap_or(9999);
+                            let to_num = |s: &str| {
+                                s.strip_prefix("refs/heads/")
+                                    .and_then(name_num)
+                                    .or_else(|| s.strip_prefix("refs/tags/").and_then(tag_num))
+                                    .unwrap_or(9999)
+                            };
                             pushed = stats.pushed.iter().map(|r| to_num(r.as_str())).collect();
                             rejected = stats.rejected.iter().map(|(r, _)| to_num(r.as_str())).collect();
                             remote_rejected = stats.remote_rejected.iter().map(|(r, _)| to_num(r.as_str())).collect();
@@ -795,6 +922,17 @@ fn one_case(rng: &mut Rng, fixed: Option<u8>) -> (String, bool, String, Vec<&'st
                 }
                 if !remote_rejected.is_empty() && !pushed.is_empty() {
                     kinds.push("push-mixing-accepted-and-remote-rejected");
+                }
+                if mixed_kinds {
+                    kinds.push("push-with-bookmarks-and-tags");
+                    let stale_bm = rejected.iter().any(|n| !is_tag(*n));
+                    let stale_tag = rejected.iter().any(|n| is_tag(*n));
+                    if stale_bm && pushed.iter().any(|n| is_tag(*n)) {
+                        kinds.push("mixed-push:stale-bookmark-accepted-tag");
+                    }
+                    if stale_tag && pushed.iter().any(|n| !is_tag(*n)) {
+                        kinds.push("mixed-push:stale-tag-accepted-bookmark");
+                    }
                 }
                 if !remote_rejected.is_empty() && !rejected.is_empty() && !pushed.is_empty() {
                     kinds.push("push-mixing-accepted-stale-and-remote-rejected");
